@@ -65,7 +65,7 @@ def run(tier, replay):
             "router_conformance_clauses": sorted(seen),
             "fs_model_checks_against_os": n1["Stat"] + n2["Stat"], "worlds": n1["Mount"] + n2["Mount"],
             "samples": S.sample_events(trace, 3),
-            "rule": "Gen_Static(c02): every path derived from the 3 menu worlds (each node, +/, +/nx, near-miss name, extra slash, "
+            "rule": "[file modification times spread over every month, year turns, leap days, the epoch, 2^31 / 2^32 s, 2100] Gen_Static(c02): every path derived from the 3 menu worlds (each node, +/, +/nx, near-miss name, extra slash, "
                     ".html stem, through links to directories) x 4 query/fragment forms on the production entry; seeded random worlds "
                     "(non-ASCII names, sizes around 8192/10000); each response judged by C02Violations (status, exact bytes, Content-Length, Content-Type, 404 body)",
         }
